@@ -128,6 +128,10 @@ func RunEntry(l *driver.Loaded, b *Builder, entryKey string, opt RunOpts) (*Entr
 	if opt.MaxArity > 0 {
 		it.MaxArity = opt.MaxArity
 	}
+	it.NameVariants = len(con.Attrs["name-variants"]) > 0
+	if ma := con.Attr("max-arity"); ma != "" {
+		fmt.Sscan(ma, &it.MaxArity) // the enumeration bound for this generator function (stated in evidence)
+	}
 	paths, err := it.Explore(entryKey, it.MakeArgs(entryKey), 20000)
 	if err != nil {
 		return nil, err
@@ -250,7 +254,12 @@ func RunEntry(l *driver.Loaded, b *Builder, entryKey string, opt RunOpts) (*Entr
 					continue
 				}
 				rep.Results = append(rep.Results, ores(entryKey, "typecheck", "", vid, true, "", ""))
+				cap := in.CheckCapture()
+				rep.Results = append(rep.Results, ores(entryKey, "capture", "", vid, len(cap) == 0, strings.Join(cap, "; ")+" on path "+desc, in.Src))
 				hd := in.CheckHeader()
+				if con.Attr("o-header") == "unchecked" {
+					hd = nil // no other plugin calls this helper: only its parameter list is specified
+				}
 				rep.Results = append(rep.Results, ores(entryKey, "header", "", vid, len(hd) == 0, strings.Join(hd, "; ")+" on path "+desc, in.Src))
 				if opt.NoVC || len(con.Attrs["o-ensures"]) == 0 && len(con.Attrs["serves"]) == 0 {
 					continue
@@ -354,6 +363,9 @@ func outOfGrammar(p *geval.Path) string {
 		if f.Named == geval.Yes && f.Kind == geval.KPointer {
 			return "named pointer type " + t.Desc
 		}
+		if f.Kind == geval.KSignature && f.Variadic == geval.Yes {
+			return "variadic signature " + t.Desc
+		}
 	}
 	return ""
 }
@@ -369,6 +381,9 @@ func PathTag(p *geval.Path) string {
 			continue
 		}
 		k, v := d[:i], d[i+1:]
+		if strings.HasPrefix(k, "nparams-") {
+			continue
+		}
 		if strings.HasPrefix(k, "class(") {
 			switch v {
 			case "Ident", "Primary", "Cmp":
@@ -397,9 +412,10 @@ func forkVariants(b *Builder, con interface{ Attr(string) string }, p *geval.Pat
 	if !ok {
 		return out
 	}
-	for _, f := range c.AttrList("o-fork") {
+	tmp0 := &Instance{Path: p, Names: map[*geval.SymType]string{}, B: b, imports: map[string]string{}, Callees: map[string]*geval.Hole{}, Helpers: map[string]*geval.Hole{}}
+	for _, f := range tmp0.pickGuarded(c.AttrList("o-fork"), genArgs, p.Decisions) {
 		ws := strings.Fields(f)
-		if len(ws) != 2 || ws[0] != "comparable" {
+		if len(ws) != 2 || (ws[0] != "comparable" && ws[0] != "nilable") {
 			continue
 		}
 		tmp := &Instance{Path: p, Names: map[*geval.SymType]string{}, B: b, imports: map[string]string{}, Callees: map[string]*geval.Hole{}, Helpers: map[string]*geval.Hole{}}
@@ -408,6 +424,12 @@ func forkVariants(b *Builder, con interface{ Attr(string) string }, p *geval.Pat
 			continue
 		}
 		key := "o-fork.IsComparable(" + t.R().Desc + ")"
+		if ws[0] == "nilable" {
+			if f := p.Facts[t.R()]; f != nil && f.Kind != geval.KUnknown {
+				continue // the path knows the kind already
+			}
+			key = "o-fork.Nilable(" + t.R().Desc + ")"
+		}
 		var next []map[string]geval.Tri
 		for _, m := range out {
 			for _, v := range []geval.Tri{geval.Yes, geval.No} {
